@@ -4,6 +4,7 @@ import (
 	"fmt"
 	"strings"
 
+	"verifharness/explore"
 	"verifharness/fw"
 
 	"github.com/rulego/streamsql/verifrt/sched"
@@ -274,10 +275,28 @@ func (c02) Plan(tier string) []fw.Unit {
 			us = append(us, fw.Unit{Check: "C02", Kind: "enum", Tier: tier, Spec: fw.Spec(enumSpec{Cfg: i, Shard: s, Shards: shards})})
 		}
 	}
+	bound := 1
+	if tier == "thorough" {
+		bound = 2
+	}
+	for i, sc := range c02Scenarios(tier) {
+		us = append(us, fw.Unit{Check: "C02", Kind: "sched", Tier: tier, Spec: fw.Spec(schedSpec{Scn: i, Name: sc.Name, Items: []explore.Item{{}}, Bound: bound, Budget: 20000})})
+	}
 	return us
 }
 
+func (c02) Replay(v fw.Violation) (string, bool) {
+	m := caseMap(v)
+	if _, ok := m["scn"]; ok {
+		return replaySched(c02Scenarios("thorough"), m)
+	}
+	return "deterministic case: see events in the replay file", false
+}
+
 func (c02) Run(u fw.Unit) fw.Result {
+	if u.Kind == "sched" {
+		return runSched("C02", u, c02Scenarios(u.Tier))
+	}
 	sp := parseEnum(u)
 	c := c02Configs(u.Tier)[sp.Cfg]
 	a := newAcc("C02", "det-"+c.Kind)
@@ -354,9 +373,9 @@ func (c02) Run(u fw.Unit) fw.Result {
 func (c02) Describe(tier string) fw.Description {
 	return fw.Description{
 		Level: "model_checking",
-		Rule: "bounded-exhaustive: all event scripts of length 1..L over 8 timestamps (on time, late into a fired window inside / beyond the allowance, early) plus at most one garbage row (timestamp now+25h, missing ts, non-numeric ts) x {tumbling 2s, sliding 4s/2s, session 2s} x MAXOUTOFORDERNESS {0,2s} x ALLOWEDLATENESS {0,1s,3s}, followed by a far sentinel; executed on the real engine with the eager feed (every goroutine runs to quiescence after each Emit, so the set of rows ingested before each delivery is known exactly) and the virtual clock; monitors: (1) a delivery only when max ingested ts >= end + MAXOUTOFORDERNESS, (2) every event not older than the watermark on arrival is reported, (3) a late event into a fired window inside the allowance causes a re-delivery with the same window_id and contents = previous + event, nothing else is re-delivered, an event beyond the allowance is never reported, (4) a script with a garbage row delivers exactly what the script without it delivers; non-trivial = >= 2 deliveries",
+		Rule: "bounded-exhaustive: all event scripts of length 1..L over 8 timestamps (on time, late into a fired window inside / beyond the allowance, early) plus at most one garbage row (timestamp now+25h, missing ts, non-numeric ts) x {tumbling 2s, sliding 4s/2s, session 2s} x MAXOUTOFORDERNESS {0,2s} x ALLOWEDLATENESS {0,1s,3s}, followed by a far sentinel; executed on the real engine with the eager feed (every goroutine runs to quiescence after each Emit, so the set of rows ingested before each delivery is known exactly) and the virtual clock; monitors: (1) a delivery only when max ingested ts >= end + MAXOUTOFORDERNESS, (2) every event not older than the watermark on arrival is reported, (3) a late event into a fired window inside the allowance causes a re-delivery with the same window_id and contents = previous + event, nothing else is re-delivered, an event beyond the allowance is never reported, (4) a script with a garbage row delivers exactly what the script without it delivers; non-trivial = >= 2 deliveries; plus W-level schedule exploration (<= bound deviations) of the tumbling and sliding window objects on 4 late-event scripts with schedule-safe monitors on the observation log (delivery only after a started Add carried ts >= end+OOO; on-time events not lost; a re-delivery only inside the Add of a late event of that window inside the allowance, contents = previous + event; a window fired before the Add started and inside the allowance must be re-delivered)",
 		Bounds:      map[string]any{"max_len": map[string]int{"quick": 4, "thorough": 5}, "alphabet_ms": c02Times, "garbage_rows": []string{"now+25h", "no ts", "ts='abc'"}},
-		Assumptions: []string{"an event older than the watermark whose window has not fired yet may be kept or dropped (both accepted)", "the schedule dimension (bursts faster than the trigger goroutine) is covered by C01/C08's W-level exploration for first firings; late updates are checked under the eager schedule only"},
+		Assumptions: []string{"an event older than the watermark whose window has not fired yet may be kept or dropped (both accepted)", "schedule dimension: the tumbling and sliding window objects are additionally driven under the schedule explorer for 4 late-event scripts (see rule)"},
 	}
 }
 
